@@ -59,6 +59,8 @@ def case_strategy(draw, tier="quick"):
             "reset": draw(st.sampled_from(["earliest", "earliest", "latest"])),
             # auto.offset.reset left out by the caller: documented default is 'latest'
             "reset_given": draw(st.sampled_from([True, True, False])),
+            # the consumer returns a future the harness finishes, or handles each batch at once
+            "cmode": draw(st.sampled_from(["fut", "fut", "sync"])),
             # invocations of the consumer that raise (in incarnations that end in a crash: the
             # batch is then not completely processed, must not be committed, and is re-delivered)
             "fail_at": sorted(draw(st.sets(st.integers(0, 5), max_size=2)))
@@ -83,7 +85,8 @@ class Incarnation:
         self.loop = self.cmgr.__enter__()
         ck.BROKER.clock = self.loop.vclock
         self.log = Log(self.loop.vclock)
-        self.cons = Consumer(self.log, 0, "fut", fail_at=self.fail_at)
+        self.cons = Consumer(self.log, 0, self.case.get("cmode", "fut"), fail_at=self.fail_at)
+        ck.BROKER.observer = lambda e: self.log.add("kafka", *e)
         params = {"bootstrap.servers": "fake", "group.id": "g"}
         if self.case.get("reset_given", True):
             params["auto.offset.reset"] = self.case["reset"]
@@ -206,6 +209,22 @@ def execute(case):
         for inv, (part, keys, low, high) in batch_of_inv.items():
             if inv in finished:
                 fin_time[(part, high)] = inc.log.events[finished[inv]][3]
+        # order in the incarnation's own log: a commit of offset o (partition p) must come after
+        # the "cf" of the consumer invocation that handled the batch ending at o-1
+        inv_of_batch = {b: inv for inv, b in batch_of_inv.items()}
+        cf_pos = {e[2]: i for i, e in enumerate(ev) if e[0] == "cf"}
+        for i, e in enumerate(ev):
+            if e[0] == "kafka" and e[1] == "commit":
+                part, off = e[4], e[5]
+                b = [bb for bb in inc.batches if bb[0] == part and bb[3] == off - 1]
+                inv = inv_of_batch.get(b[0]) if b else None
+                if not b or inv is None or cf_pos.get(inv, 10 ** 9) > i:
+                    v.append(("%s:commit-before-processing" % ID,
+                              "commit(partition %d, offset %d) was issued at log[%d], before the "
+                              "batch ending at %d had been %s" % (
+                                  part, off, i, off - 1,
+                                  "emitted" if not b or inv is None else "handled to the end")))
+                    break
         commits = [c for c in ck.BROKER.calls if c[0] == "commit"][inc.n_commits0:]
         for c in commits:
             for (p2, keys, low, high) in inc.batches:
@@ -262,17 +281,20 @@ def execute(case):
 
     def run_incarnation(actions, final):
         wm_before = {p_: len(l_) for p_, l_ in enumerate(ck.BROKER.logs[TOPIC])}
+        # (read before the source exists: a synchronous consumer finishes and commits the first
+        # batches while the source is being started)
+        committed_before = {p: ck.BROKER.committed.get(("g", TOPIC, p), ck.OFFSET_INVALID)
+                            for p in range(len(ck.BROKER.logs[TOPIC]) + 4)}
         fail_at = case.get("fail_at", []) if any(a[0] == "crash" for a in actions) else []
         with Incarnation(case, None, None, fail_at=fail_at) as inc:
             inc.initial_parts = set(range(len(ck.BROKER.logs[TOPIC])))
             inc.wm_at_start = dict(wm_before)
             if not expected_base:
                 for p_, n_ in wm_before.items():
-                    c_ = ck.BROKER.committed.get(("g", TOPIC, p_), ck.OFFSET_INVALID)
+                    c_ = committed_before.get(p_, ck.OFFSET_INVALID)
                     expected_base[p_] = c_ if c_ != ck.OFFSET_INVALID else (
                         0 if case["reset"] == "earliest" else n_)
-            inc.committed_at_start = {p: ck.BROKER.committed.get(("g", TOPIC, p), ck.OFFSET_INVALID)
-                                      for p in range(len(ck.BROKER.logs[TOPIC]) + 4)}
+            inc.committed_at_start = committed_before
             inc.commit_seq = {}
             inc.finish_seq = {}
             seq = [0]
